@@ -103,6 +103,7 @@ def run(prop, tier):
     try:
         edges = 0
         walk_steps = 0
+        by_op = {}
         for pool in POOLS[tier]:
             dump = os.path.join(wd, "dom_%s.out" % pool)
             mc = C.run_tlc("MC_Dom", "MC_Dom_%s.cfg" % pool, "dommc" + pool, to_file=dump, workers=8,
@@ -117,6 +118,10 @@ def run(prop, tier):
             for st in stats:
                 edges += st["edges_replayed"]
                 walk_steps += st["walk_steps"]
+                for op, v in st.get("by_op", {}).items():
+                    acc = by_op.setdefault(op, {"may_succeed": 0, "must_fail": 0})
+                    acc["may_succeed"] += v["may_succeed"]
+                    acc["must_fail"] += v["must_fail"]
                 if st["unreached_states"]:
                     out.assumptions.append("pool %s: %d abstract states could not be reached on the real objects "
                                            "(the diverging edge is reported itself)" % (pool, st["unreached_states"]))
@@ -157,6 +162,12 @@ def run(prop, tier):
             out.extra.update({"chardata_events": tot["events"], "factory_names": names})
         out.evaluations = edges + walk_steps + rstats["steps"] + extra_eval
         out.nontrivial_count = edges
+        # anti-vacuity: every operation of the machine was fired both where it may succeed and where it must fail
+        out.extra["edges_by_operation"] = by_op
+        never = sorted(op for op, v in by_op.items()
+                       if v["may_succeed"] == 0 or (v["must_fail"] == 0 and op != "remove_attribute"))   # (it cannot fail)
+        if never or not by_op:
+            out.assumptions.append("operations never fired in one of the two classes (may succeed / must fail): %s" % (never or "no statistics"))
         out.extra.update({"edges_replayed": edges, "graph_walk_steps": walk_steps,
                           "recorded_history_steps": rstats["steps"], "recorded_queries": rstats.get("queries", 0)})
         out.rule = ("every (state, call) edge of the TLC state graph of each pool is fired on the real objects after "
